@@ -204,7 +204,8 @@ def main(argv=None):
         "coverage": cov, "assumptions": getattr(mod, "ASSUMPTIONS", []), "wall_s": timer.s(),
         "violations": len(fresh),
     }
-    if not a.replay:
+    if not a.replay and not os.environ.get("VERIF_NO_EVIDENCE"):
+        # (the validation tools run the checks against deliberately broken copies of the repository: those runs must not overwrite the evidence)
         (EVIDENCE / f"{prop}.json").write_text(json.dumps(ev, indent=1))
 
     for fid, n in sorted(known.items()):
